@@ -72,15 +72,15 @@ def fold(agg, prop, i, seed, case, res):
         agg['shapes'].add(res.get('shape'))
         if len(agg['samples']) < 2:
             agg['samples'].append({'run': i, 'seed': seed, 'case': case})
+    mine = False
     for v in res.get('violations', []):
-        if v['prop'] == prop:
+        if v['prop'] == prop and not mine:
+            mine = True
             if len(agg['violations']) < 40:
                 agg['violations'].append({'run': i, 'seed': seed, 'case': case, 'v': v})
-            break   # only the first violation of a run counts
-        else:
+        elif v['prop'] != prop:
             key = '%s:%s' % (v['prop'], v['rule'])
             agg['other'][key] = agg['other'].get(key, 0) + 1
-            break
     for k, n in res.get('known_hits', {}).items():
         agg['known_hits'][k] = agg['known_hits'].get(k, 0) + n
     if 'digest' in res:
